@@ -275,11 +275,17 @@ class RPAdapter:
     def make(self, rng):
         return {"x": _series(rng, rng.randint(6, 14)),
                 "kw": {"threshold": rng.choice([0.5, 1.5, 2.5])},
-                "metric": "supremum"}
+                "metric": "supremum",
+                # sequential RQA: no matrix is stored, the line distributions
+                # are computed from the embedding and the current threshold
+                "sparse": rng.random() < 0.3}
 
     def build(self, spec):
+        kw = dict(spec["kw"])
+        if spec.get("sparse") and type(self).__name__ == "RPAdapter":
+            kw["sparse_rqa"] = True
         return self.cls()(spec["x"].copy(), metric=spec["metric"],
-                          silence_level=3, **spec["kw"])
+                          silence_level=3, **kw)
 
     def mutators(self):
         def thr(o, s, rng):
@@ -302,7 +308,15 @@ class RPAdapter:
             v = rng.randint(1, 3)
             s["kw"] = {"adaptive_neighborhood_size": v}
             type(o).set_adaptive_neighborhood_size(o, v)
-        return [("set_fixed_threshold", thr),
+        def assign_thr(o, s, rng):
+            # without a stored matrix the threshold attribute is the state
+            if not getattr(o, "sparse_rqa", False):
+                return False
+            v = rng.choice([0.5, 1.5, 2.5, 3.5])
+            s["kw"] = {"threshold": v}
+            o.threshold = v
+        return [("threshold (assigned)", assign_thr),
+                ("set_fixed_threshold", thr),
                 ("set_fixed_threshold_std", thr_std),
                 ("set_fixed_recurrence_rate", rr),
                 ("set_fixed_local_recurrence_rate", lrr),
